@@ -214,7 +214,14 @@ def spillLocalSlotsDuringRecursion(
 
                 hideReturnValueInFirstSlot = False
 
-                if subroutine.return_type != TealType.none:
+                # whether a value is left on the stack is decided by the routine being called,
+                # not by the calling one (an ABI output is returned on the stack as well)
+                calleeReturnsValue = (
+                    reentrySubroutineCall.return_type != TealType.none
+                    or reentrySubroutineCall.has_abi_output
+                )
+
+                if calleeReturnsValue:
                     # if the subroutine returns a value on the stack, we need to preserve this after
                     # restoring all local slots.
 
@@ -245,7 +252,7 @@ def spillLocalSlotsDuringRecursion(
                         # clear out the duplicate arguments that were dug up previously, since dig
                         # does not pop the dug values -- once we use cover/uncover to properly set up
                         # the spilled slots, this will no longer be necessary
-                        if subroutine.return_type != TealType.none:
+                        if calleeReturnsValue:
                             # if there is a return value on top of the stack, we need to preserve
                             # it, so swap it with the subroutine argument that's below it on the
                             # stack
